@@ -52,6 +52,28 @@ func staticCallee(c ssa.CallInstruction) *ssa.Function {
 
 var typeParamBind = map[*types.TypeParam]types.Type{}
 
+// virtualParamDesc: a field of a parameter object is the reference tree's plain parameter: "arg#h", or - when the
+// function is examined on behalf of a call - what the call site put into that field.
+func virtualParamDesc(v ssa.Value, depth int) (string, bool) {
+	_, h, p, ok := virtualParam(v)
+	if !ok {
+		return "", false
+	}
+	if bv, bound := paramBindV[p]; bound && bv != nil {
+		field := -1
+		switch x := v.(type) {
+		case *ssa.Field:
+			field = x.Field
+		case *ssa.FieldAddr:
+			field = x.Field
+		}
+		if fv := structFieldValue(bv, field); fv != nil {
+			return descD(fv, depth+1), true
+		}
+	}
+	return fmt.Sprintf("arg#%d", h), true
+}
+
 // freshContainerHelper: a call to an unexported function of the module whose only result is, on every return, one
 // map it made itself ("makemap"); "" otherwise. What the helper puts into the map is the caller rule's business
 // (it reaches the writes through the helper, with the parameters bound).
@@ -147,12 +169,27 @@ func callArgs(c ssa.CallInstruction) []ssa.Value {
 			if o := f.Origin(); o != nil {
 				f = o
 			}
-			if perm := paramPerm[f]; perm != nil && len(perm) == len(args) {
-				out := make([]ssa.Value, len(args))
-				for h, cur := range perm {
-					out[h] = args[cur]
+			if perm := paramPerm[f]; perm != nil {
+				out := make([]ssa.Value, len(perm))
+				ok := true
+				for h, vp := range perm {
+					if vp.cur >= len(args) {
+						ok = false
+						break
+					}
+					out[h] = args[vp.cur]
+					if vp.field >= 0 {
+						// a parameter object built at the call site: the value given to that field
+						out[h] = structFieldValue(args[vp.cur], vp.field)
+						if out[h] == nil {
+							ok = false
+							break
+						}
+					}
 				}
-				return out
+				if ok {
+					return out
+				}
 			}
 		}
 	}
@@ -552,8 +589,8 @@ func paramIndex(p *ssa.Parameter) int {
 	for i, q := range p.Parent().Params {
 		if q == p {
 			if perm := paramPerm[p.Parent()]; perm != nil {
-				for h, cur := range perm {
-					if cur == i {
+				for h, vp := range perm {
+					if vp.cur == i && vp.field < 0 {
 						return h
 					}
 				}
@@ -616,12 +653,18 @@ func descD(v ssa.Value, depth int) string {
 		}
 		return "global:" + pk + "." + x.Name()
 	case *ssa.FieldAddr:
+		if d, ok := virtualParamDesc(x, depth); ok {
+			return d
+		}
 		base, _, name := ownerFieldBase(x)
 		if b, ok := rerootBase(base); ok {
 			return b + "." + name
 		}
 		return descD(base, depth+1) + "." + name
 	case *ssa.Field:
+		if d, ok := virtualParamDesc(x, depth); ok {
+			return d
+		}
 		return descD(x.X, depth+1) + "." + fieldName(x.X.Type(), x.Field)
 	case *ssa.UnOp:
 		switch x.Op {
